@@ -57,6 +57,18 @@ PROPS["C20"] = {
     "not_covered": ["ffi database_* functions: effect equality with native calls (raw pointers, Mutex)"],
 }
 
+PROPS["C16"] = {
+    "level_text": "Proof by contract of the master's echo comparison (CommandHeader::compare / compare_items / Prefix::equals) for all ten command header kinds: success IFF same kind, same count and every object octet-identical with status SUCCESS; full value domain, up to 3 objects per header (bounded in count).",
+    "level_note": "Not covered: iterating several headers (CommandHeaders::compare over a HeaderCollection), SELECT-then-OPERATE sequencing and the one-outcome-per-request accounting (async task code). Known finding D6: a signed-zero float echo is accepted. A faithful NaN echo is rejected (safe side).",
+    "not_covered": ["master::tasks::command (async): SELECT then OPERATE sequencing, every exit reports exactly one outcome", "master::request::CommandHeaders::compare over a HeaderCollection (dispatcher)"],
+}
+PROPS["C17"] = {
+    "level_text": "Proof by contract of the retry back-off arithmetic on the full Duration domain (first delay = min, then doubling capped at max, overflow -> max), of the automatic-task state transitions including retry instant = now + delay, and of the start-up / restart-IIN / reset re-arming of the task states.",
+    "level_note": "Not covered: the fixed priority ORDER in TaskStates::next, create_next_task's wait gate, Association::{process_iin,on_restart_iin_observed,reset} and the unsolicited gating - all need Association/Task values that CBMC cannot instrument. Assumes RetryStrategy min <= max (not enforced by the constructor).",
+    "not_covered": ["master::association::TaskStates::next priority order", "master::association::Association::handle_unsolicited_response gating"],
+    "assumptions": ["tokio::time::Instant::now replaced by a harness clock"],
+}
+
 NA = {
     "C02": "whole-system history over real TCP and three threads: no function contract within reach expresses it (Kani has no threads, tokio I/O crashes the Kani compiler); its ingredients are decided under C03/C06/C08/C09/C10/C13",
     "C14": "every rule is control flow inside async fns that hold the physical layer (check_unsolicited, perform_unsolicited_response_series, wait_for_unsolicited_confirm, handle_deferred_read): outside both verifiers",
